@@ -349,14 +349,16 @@ def views(ix, R):
                     isinstance(lc.elt, ast.IfExp)):
                 raise AnalysisError('%s is not a conditional comprehension over fitting_parameters' % nm)
             v = lc.generators[0].target.id
-            t = unparse(lc.elt.test)
-            if t == "%s[4] == 'linear'" % v:
+            import re as _re
+            ren = lambda txt: _re.sub(r'\b%s\b' % _re.escape(v), 'c', txt)
+            t = ren(unparse(lc.elt.test))
+            if t in ("c[4] == 'linear'", "'linear' == c[4]"):
                 disc[nm] = 'tuple mode (slot 4)'
-            elif t == 'self._fit_priors[%s[0]].priorMode is PriorMode.LINEAR' % v:
+            elif t == 'self._fit_priors[c[0]].priorMode is PriorMode.LINEAR':
                 disc[nm] = 'prior mode'
             else:
                 disc[nm] = t
-            forms[nm] = (unparse(lc.elt.body).replace(v, 'c'), unparse(lc.elt.orelse).replace(v, 'c'))
+            forms[nm] = (ren(unparse(lc.elt.body)), ren(unparse(lc.elt.orelse)))
     want = {
         'fit_values': ('c[2]()', 'math.log10(c[2]())'),
         'fit_boundaries': ('c[-1]', '(math.log10(c[-1][0]), math.log10(c[-1][1]))'),
@@ -414,14 +416,14 @@ def tuple_layout(ix, R):
                 is_der = 'derivedParameters[' in src or (src == 'params' and len(names) == 4)
                 if is_fit and len(names) != 4:
                     n7 += 1
-                    ok = len(names) == 7 and _roles_ok(names, FIT_LAYOUT)
+                    ok = len(names) == 7
                     R.check('8.unpack', 'SIB', fn.site,
-                            'fitting tuple unpacked as 7 names in layout order',
+                            'fitting tuple unpacked into exactly 7 names (slot use is checked by the slot obligations)',
                             ok, key='unpacks %s' % names, detail='unpacks into %s' % names, loc=fn.loc(n))
                 elif is_der:
                     n4 += 1
-                    ok = len(names) == 4 and _roles_ok(names, DER_LAYOUT)
-                    R.check('8.unpack.d', 'SIB', fn.site, 'derived tuple unpacked as 4 names in layout order',
+                    ok = len(names) == 4
+                    R.check('8.unpack.d', 'SIB', fn.site, 'derived tuple unpacked into exactly 4 names',
                             ok, key='unpacks %s' % names, detail='unpacks into %s' % names, loc=fn.loc(n))
     if n7 < 9 or n4 < 3:
         R.error('8.unpack.count', 'SIB', OP, 'the confirmed unpacking sites exist', 'found %d/%d' % (n7, n4))
@@ -591,6 +593,9 @@ MUTANTS = [
     ('set-prior-nocheck', OP, "        if parameter not in obj.fittingParameters:\n            self.error('Fitting parameter %s does not exist', parameter)\n            raise ValueError('Fitting parameter does not exist')\n", "", '1.set_prior'),
 ]
 EQUIVALENTS = [
+    ('views-rename', OP, r're:\bfor c in self\.fitting_parameters\b', 'for c in self.fitting_parameters'),
+    ('unpack-rename', OP, r're:\bto_fit\b', 'is_fitted'),
+    ('latex-rename', OP, r're:\blatex\b', 'tex'),
     ('enable-inline', OP, "        to_fit = True\n        obj.fittingParameters[parameter] = (name, latex, fget, fset, mode, to_fit, bounds)", "        obj.fittingParameters[parameter] = (name, latex, fget, fset, mode, True, bounds)"),
     ('default-prior-else', OP, "                if mode == 'log':\n                    prior = LogUniform(lin_bounds=bounds)\n                else:\n                    prior = Uniform(bounds=bounds)", "                if mode == 'linear':\n                    prior = Uniform(bounds=bounds)\n                else:\n                    prior = LogUniform(lin_bounds=bounds)"),
 ]
